@@ -200,7 +200,9 @@ def check(case, ctx):
             ctx.near("agreement/general(-w)=wedge(w)", dd / cw, 1e-9, "agreement/general-vs-wedge", "%s: general(0,-w) %r vs wedge(w) %r" % (mname, list(np.atleast_1d(og)), ow.tolist()))
     # tth = 2 asin(lambda*stl) = tth2(U.B.hkl, lambda)
     cell = case["cell"]
-    G, Gs, V = O.metric(cell)
+    if S.is_int_typed(cell):
+        ctx.event("tth:integer-typed-cell")
+    G, Gs, V = O.metric([float(x) for x in cell])
     s = O.stl(Gs, case["hkl"])
     wl = case["wl"]
     if wl * s < 0.95:
